@@ -9,7 +9,7 @@ import itertools
 import math
 import os
 
-from mc import builder, core
+from mc import builder, core, fileio
 from refs import osu as ro
 
 ID = "C01"
@@ -96,7 +96,9 @@ AXES = [
         ("TitleUnicode", "日本語"), ("Creator", "日本語"), ("Version", "日本語 x"), ("Title", "  lead"),
         ("Source", ""), ("Tags", ""),
         # tags are separated by the ASCII space only: other white space belongs to the tag
-        ("Tags", "東方\u3000Project b"), ("Tags", "a\u00a0b c"), ("Tags", "a\tb c"), ("Title", "x ~mix~ \\ y")]]),
+        ("Tags", "東方\u3000Project b"), ("Tags", "a\u00a0b c"), ("Tags", "a\tb c"), ("Title", "x ~mix~ \\ y"),
+        # Unicode line-boundary characters inside a value are characters of the value (lines end with \n only)
+        ("TitleUnicode", "a\u2028b"), ("Version", "a\u0085b")]]),
     ("meta_num", [("preview", _meta("PreviewTime", "86398")), ("leadin", _meta("AudioLeadIn", "500")), ("hp0", _meta("HPDrainRate", "0")),
                   ("ids", lambda d: d["meta"].update(BeatmapID="2062527", BeatmapSetID="-1")), ("sampleset_none", _meta("SampleSet", "None"))]),
     ("samples", [("one", _samples([(24565, "clap.wav", 70)])), ("two_same_time", _samples([(100, "a.wav", 70), (100, "b.wav", 30)])),
@@ -280,6 +282,9 @@ def check_doc(doc, lab, ctx):
     ctx.outcome((tuple(map(repr, got["hits"])), tuple(map(repr, got["holds"])), tuple(map(repr, got["bpms"])), tuple(map(repr, got["svs"]))))
     if not ok:
         return
+    if len(lab.get("devs", ())) <= 1:
+        # the file entry points: read_file of a file holding these lines, write_file of the chart
+        fileio.check_file_entry_points(ctx, "osu", "\n".join(lines), m, lambda x: lib_den(x), dict(route="file-entry"), case)
     generations(m, got, ctx, site, case, from_file=True)
 
 
